@@ -6,7 +6,7 @@ import re
 
 from vk import astx, elect, facts, effects
 from vk.report import shape_rule
-from vk.algebra import Normalizer, bool_key, simplify, spec_guard, equivalent, atoms_of
+from vk.algebra import Normalizer, bool_key, simplify, spec_guard, equivalent, atoms_of, spec_rat, NotClosedForm
 from vk.loader import AnalysisError
 
 EXPLANATION = (
@@ -644,7 +644,43 @@ def r10_alaska_replay_agrees(ctx):
         ctx.vanished(f"Alaska.get_profile sibling clauses: only {n_sib}")
 
 
+def r11_round_numbers(ctx):
+    """Every accessor addresses a round by its position in election_states (C09.R4, R6), and steps read
+    `prev_state.round_number` to decide what to do next (STV's default election, the two stages of TopTwo / Alaska): the
+    state a step records must carry the number of the round it completes - the previous state's number plus one, or the
+    literal 1 in a rule whose only step is round 1; the initial state carries 0."""
+    prog = ctx.prog
+    n = 0
+    for c in prog.subclasses("Election"):
+        f = c.methods.get("_run_step")
+        if f is None or len(f.params) < 3:
+            continue
+        prev = f.params[2]
+        N = Normalizer(f.node, inline=True, int_atoms=lambda a: True)
+        for sc in elect.state_ctor_calls(prog, f):
+            rn = elect.state_kwargs(prog, sc).get("round_number")
+            if rn is None:
+                continue
+            n += 1
+            try:
+                good = astx.is_const(rn, 1) or N.rat(rn).equals(spec_rat(f"{prev}.round_number + 1", int_atoms=lambda a: True))
+            except NotClosedForm:
+                good = False
+            ctx.check(good, f, sc, f"{f.short}: the recorded state is numbered prev_state.round_number + 1", astx.u(rn), f"the state is recorded as round `{astx.u(rn)}`")
+    f = prog.find_func("Election._run_election")
+    for sc in elect.state_ctor_calls(prog, f):
+        rn = elect.state_kwargs(prog, sc).get("round_number")
+        n += 1
+        ctx.check(rn is None or astx.is_const(rn, 0), f, sc, "the initial state is round 0", astx.u(rn) if rn is not None else "default", "the initial state is not numbered 0")
+    apps = [x for x in astx.walk_own(f.node) if elect.is_states_append(x)]
+    ctx.check(bool(apps) and bool(elect.state_ctor_calls(prog, f)), f, apps[0] if apps else f.node, "the initial state is recorded before the first step", "",
+              "Election._run_election does not record the round-0 state: every round number is off by one and get_profile(0) has nothing to return")
+    if n < 8:
+        ctx.vanished(f"recorded states with an explicit round number: only {n}")
+
+
 RULES = [
+    ("C09.R11", r11_round_numbers, 8, "recorded states are numbered consecutively: prev_state.round_number + 1 (1 for single-step rules), 0 initially"),
     ("C09.R10", r10_alaska_replay_agrees, 3, "Alaska.get_profile rebuilds the STV stage exactly as the run did (C13.R3 sibling clauses, C13.R4 argument slots)"),
     ("C09.P0", p0_closed_world, 1, "closed-world precondition: no reflective attribute access in the package"),
     ("C09.R1", r1_queries_pure, 9, "query methods and their call closure write nothing observable"),
@@ -667,6 +703,7 @@ AK = "src/votekit/elections/election_types/ranking/alaska.py"
 RT = "src/votekit/elections/election_types/scores/rating.py"
 CB = "src/votekit/elections/election_types/ranking/condo_borda.py"
 FAULTS = [
+    ("STV numbers the recorded round two ahead", [(STV, "                round_number=prev_state.round_number + 1,", "                round_number=prev_state.round_number + 2,")], "C09.R11"),
     ("computed getattr in models", [(MO, "        return self.length\n", "        return getattr(self, 'len' + 'gth')\n")], "C09.P0"),
     ("get_remaining caches on self", [(MO, "        return tuple(self.election_states[round_number].remaining)", "        self._last_remaining = tuple(self.election_states[round_number].remaining)\n        return self._last_remaining")], "C09.R1"),
     ("get_eliminated reverses stored tuple in place", [(MO, "        round_number = round_number % len(self.election_states)\n\n        # reverses order to match ranking convention", "        round_number = round_number % len(self.election_states)\n        self.election_states.reverse()\n        self.election_states.reverse()\n\n        # reverses order to match ranking convention")], "C09.R1"),
